@@ -1,7 +1,11 @@
 """C06 — ionization and thermal balance return a physical state (DESIGN §6 C06)."""
+import glob
 import math
 import os
 import re
+import shutil
+import tempfile
+import simrun
 import vlib
 
 SOURCES = ["IonizationStateCalculator.cpp", "TemperatureCalculator.cpp", "VernerRecombinationRates.cpp",
@@ -361,6 +365,237 @@ def group_start(op):
     return op.split(" ", 1)[0] not in HISTORY_OPS
 
 
+# ----------------------------------------------------------------------------- whole binary
+# The glue between the photon estimators and the balance (normalisation of the counters by the
+# abundances, jfac/hfac, loop over cells, snapshot) is exercised through the real front door:
+# short `CMacIonize --task-based` runs; oracle on the final Gadget snapshot.
+
+IONS = ["H", "He", "C+", "C++", "N", "N+", "N++", "O", "O+", "Ne", "Ne+", "S+", "S++", "S+++"]
+STAGES = {"C": ["C+", "C++"], "N": ["N", "N+", "N++"], "O": ["O", "O+"], "Ne": ["Ne", "Ne+"], "S": ["S+", "S++", "S+++"]}
+DEFAULT_AB = [0.1, 2.2e-4, 4.e-5, 3.3e-4, 5.e-5, 9.e-6]
+
+
+def sim_param(c):
+    n, s, ab = c.get("ncell", 8), c.get("nsub", 2), c["ab"]
+    t = """SimulationBox:
+  anchor: [0. m, 0. m, 0. m]
+  sides: [1. m, 1. m, 1. m]
+  periodicity: [false, false, false]
+DensityGrid:
+  number of cells: [%d, %d, %d]
+DensitySubGridCreator:
+  number of subgrids: [%d, %d, %d]
+DensityFunction:
+  type: Homogeneous
+  density: %s
+  temperature: 8000. K
+TemperatureCalculator:
+  do temperature calculation: %s
+  minimum number of iterations: 0
+Abundances:
+  helium: %r
+  carbon: %r
+  nitrogen: %r
+  oxygen: %r
+  neon: %r
+  sulphur: %r
+PhotonSourceSpectrum:
+  type: Monochromatic
+  frequency: %g eV
+PhotonSourceDistribution:
+  type: SingleStar
+  position: [0.55 m, 0.55 m, 0.55 m]
+  luminosity: %s s^-1
+DensityGridWriter:
+  type: Gadget
+  prefix: snap
+  padding: 3
+DensityGridWriterFields:
+  Temperature: 1
+""" % (n, n, n, s, s, s, c.get("density", "100. cm^-3"), "true" if c["temperature"] else "false",
+       ab[0], ab[1], ab[2], ab[3], ab[4], ab[5], c["ev"], c.get("lum", "1.e40"))
+    for ion in IONS:
+        t += "  NeutralFraction%s: 1\n" % ion
+    t += """TaskBasedIonizationSimulation:
+  number of iterations: %d
+  number of photons: %d
+  number of buffers: 20000
+  queue size per thread: 5000
+  shared queue size: 5000
+  number of tasks: 20000
+  source copy level: 2
+""" % (c.get("iterations", 2), c.get("photons", 10000))
+    return t
+
+
+def read_snapshot(tool, path):
+    rc, out, err = vlib.run_exe(tool, "", args=[path])
+    data = {}
+    for l in out.split("\n"):
+        w = l.split(" ")
+        if len(w) >= 4:
+            data[w[0]] = [vlib.bits2f(x) for x in w[3:]]
+    return data
+
+
+def snapshot_oracle(data, temperature_on, tmin=4000.0, tbounds=True):
+    """list of (key, description) for everything unphysical in the final snapshot"""
+    bad = []
+    need = ["Temperature"] + ["NeutralFraction" + i for i in IONS]
+    for k in need:
+        if k not in data:
+            bad.append(("sim:snapshot-field-missing", "dataset %s not in the snapshot" % k))
+    for k, v in data.items():
+        nf = [i for i, x in enumerate(v) if not math.isfinite(x)]
+        if nf:
+            bad.append(("sim:not-finite", "%s: %d of %d values are NaN/inf (first: cell %d = %r)" % (k, len(nf), len(v), nf[0], v[nf[0]])))
+    for i in IONS:
+        v = data.get("NeutralFraction" + i, [])
+        out = [j for j, x in enumerate(v) if math.isfinite(x) and not (-1e-12 <= x <= 1 + 1e-12)]
+        if out:
+            bad.append(("sim:fraction-range", "NeutralFraction%s: %d cells outside [0,1] (first: cell %d = %r)" % (i, len(out), out[0], v[out[0]])))
+    for el, st in STAGES.items():
+        cols = [data.get("NeutralFraction" + s) for s in st]
+        if all(cols):
+            for j in range(len(cols[0])):
+                ssum = sum(c[j] for c in cols)
+                if math.isfinite(ssum) and ssum > 1 + 1e-12:
+                    bad.append(("sim:stage-sum-above-1", "%s: tracked stages sum to %r in cell %d" % (el, ssum, j)))
+                    break
+    T = data.get("Temperature", [])
+    outT = [j for j, x in enumerate(T) if math.isfinite(x) and not (x == 500.0 or (tmin <= x <= 30000.0))]
+    if outT and tbounds:
+        bad.append(("sim:T-out-of-bounds", "Temperature: %d cells outside {500} u [%g, 30000] (first: cell %d = %r)" % (len(outT), tmin, outT[0], T[outT[0]])))
+    return bad
+
+
+def run_case(binary, tool, param, args=("--task-based",), threads=1):
+    d = tempfile.mkdtemp(prefix="verif_c06sim_")
+    try:
+        res = simrun.run_sim(binary, param, list(args), threads=threads, timeout=120, trace=False, workdir=d)
+        if res["timed_out"]:
+            return [("sim:run-hangs", "run did not finish: " + res["log"][-300:])], {}
+        if res["rc"] != 0:
+            return [("sim:run-fails", "exit status %s: %s" % (res["rc"], res["log"][-400:]))], {}
+        snaps = sorted(glob.glob(os.path.join(d, "snap*.hdf5")))
+        if not snaps:
+            return [("sim:no-snapshot", "no snapshot written: " + res["log"][-300:])], {}
+        data = read_snapshot(tool, snaps[-1])
+        # after a hydro step the temperature follows the pressure: only finiteness is required there
+        return snapshot_oracle(data, "do temperature calculation: true" in param, tbounds="--task-based-rhd" not in args), data
+    finally:
+        shutil.rmtree(d, ignore_errors=True)
+
+
+def glue_tie(ctx):
+    """statement-level tie of `IonBalance.normalise`: the two task-based drivers must still
+    normalise each counter with the guarded division (fails closed if the marker vanishes)"""
+    want = re.compile(re.escape("for(int_fast32_tion=1;ion<NUMBER_OF_IONNAMES;++ion){constdoubleabundance=")
+                      + "_?" + re.escape("abundances.get_abundance(get_element(ion));if(abundance>0.){vars.set_mean_intensity(ion,"
+                                         "vars.get_mean_intensity(ion)/abundance);}}"))
+    n = 0
+    for f in ("TaskBasedIonizationSimulation.cpp", "TaskBasedRadiationHydrodynamicsSimulation.cpp"):
+        try:
+            txt = open(os.path.join(vlib.REPO, "src", f), encoding="utf-8").read()
+        except OSError:
+            ctx.broken_obligation("normalisation glue: %s not found" % f)
+            continue
+        pos = [m.end() for m in re.finditer(r"// correct the intensity counters for abundance factors", txt)]
+        if not pos:
+            ctx.broken_obligation("normalisation glue: marker comment 'correct the intensity counters for abundance factors' no longer in %s; the tie of IonBalance.normalise is lost" % f)
+        for q in pos:
+            chunk = re.sub(r"//[^\n]*", "", txt[q:q + 1500])
+            flat = re.sub(r"\s+", "", chunk)
+            if want.search(flat):
+                n += 1
+            else:
+                ctx.broken_obligation("normalisation glue in %s no longer is `if (abundance > 0.) J = J / abundance` per counter (IonBalance.normalise, theorem normalise_zero_counter): %s" % (f, flat[:300]))
+    ctx.cov["normalise_sites_tied"] = n
+
+
+def sim_cases(ctx):
+    rng = ctx.rng
+    cases = []
+    hard = lambda: rng.choice([45., 60., 100.])
+    cases.append(dict(tag="default", ab=list(DEFAULT_AB), temperature=True, ev=hard(), lum="1.e14"))
+    partners = set([0] + rng.sample(range(1, 6), ctx.budget(2, 5)))
+    for k in range(6):
+        c = dict(tag="zero-" + ELNAMES[k], ab=list(DEFAULT_AB), temperature=(k % 2 == 0) if not ctx.thorough else True,
+                 ev=hard() if rng.random() < 0.7 else 20., lum=rng.choice(["1.e12", "1.e14"]), iterations=3)
+        c["ab"][k] = 0.0
+        if k in partners:
+            c["temperature"] = True
+            c["pair"] = k
+        cases.append(c)
+        if ctx.thorough:
+            c2 = dict(c, temperature=False, tag=c["tag"] + "-notemp")
+            c2.pop("pair", None)
+            cases.append(c2)
+    for _ in range(ctx.budget(2, 12)):
+        ab = [rng.choice([0.0, 1e-6, d]) for d in DEFAULT_AB]
+        cases.append(dict(tag="mixed", ab=ab, temperature=rng.random() < 0.6, ev=rng.choice([20., 45., 60., 100.]),
+                          lum=rng.choice(["1.e11", "1.e13", "1.e16"]), threads=rng.choice([1, 2]),
+                          ncell=rng.choice([8, 8, 16]) if ctx.thorough else 8))
+    return cases
+
+
+ELNAMES = ["He", "C", "N", "O", "Ne", "S"]
+
+
+def sim_stream(ctx):
+    binary = vlib.full_binary()
+    tool = vlib.build_harness("c06_snap")
+    st = ctx.cov["correspondence_streams"].setdefault("whole-binary", {"lines": 0, "mismatches": 0, "oracle_failures": 0})
+    mean = lambda v: sum(v) / max(1, len(v))
+    for c in sim_cases(ctx):
+        param = sim_param(c)
+        bad, data = run_case(binary, tool, param, threads=c.get("threads", 1))
+        st["lines"] += 1
+        ctx.count()
+        ctx.branch("sim-" + c["tag"] + ("-T" if c["temperature"] else ""))
+        ctx.distinct(("sim", param), nontrivial=True)
+        replay_obj = {"stream": "whole-binary", "param": param, "args": ["--task-based"], "threads": c.get("threads", 1)}
+        if "pair" in c and not bad:
+            # continuity at abundance 0: the same run (same seed) with abundance 1e-9
+            c2 = dict(c, ab=list(c["ab"]))
+            c2["ab"][c["pair"]] = 1e-9
+            param2 = sim_param(c2)
+            bad2, data2 = run_case(binary, tool, param2, threads=c.get("threads", 1))
+            st["lines"] += 1
+            ctx.count()
+            if not bad2:
+                for k in ("Temperature", "NeutralFractionH"):
+                    a, b2 = mean(data[k]), mean(data2[k])
+                    if abs(a - b2) > 1e-3 * max(abs(a), abs(b2)):
+                        bad.append(("sim:zero-abundance-discontinuity",
+                                    "%s abundance 0 vs 1e-9 (same seed): mean %s %r vs %r" % (ELNAMES[c["pair"]], k, a, b2)))
+                        replay_obj["pair_param"] = param2
+                        break
+        for key, desc in bad:
+            st["oracle_failures"] += 1
+            ctx.violation(key, "whole-binary run (%s): %s" % (c["tag"], desc), replay_obj)
+    # one radiation-hydrodynamics run (same normalisation glue in the second driver)
+    from props import c12
+    k = ctx.rng.randrange(1, 6)
+    ab = list(DEFAULT_AB)
+    ab[k] = 0.0
+    c = dict(layout=(2, 2, 2), cells=(4, 4, 4), radiation=True, photons=5000, iterations=2, total_time=0.002, snaptime=0.002,
+             radtime=0.001, density="100. cm^-3", luminosity="1.e14")
+    param = c12.rhd_param(c).replace("frequency: 13.6 eV", "frequency: %g eV" % ctx.rng.choice([45., 60., 100.]))
+    param += ("Abundances:\n  helium: %r\n  carbon: %r\n  nitrogen: %r\n  oxygen: %r\n  neon: %r\n  sulphur: %r\n" % tuple(ab)
+              + "TemperatureCalculator:\n  do temperature calculation: true\n  minimum number of iterations: 0\n"
+              + "DensityGridWriterFields:\n  Temperature: 1\n" + "".join("  NeutralFraction%s: 1\n" % i for i in IONS))
+    bad, data = run_case(binary, tool, param, args=("--task-based-rhd",), threads=1)
+    st["lines"] += 1
+    ctx.count()
+    ctx.branch("sim-rhd-zero-" + ELNAMES[k])
+    for key, desc in bad:
+        st["oracle_failures"] += 1
+        ctx.violation(key, "whole-binary RHD run (zero-%s): %s" % (ELNAMES[k], desc),
+                      {"stream": "whole-binary", "param": param, "args": ["--task-based-rhd"], "threads": 1})
+    ctx.sample({"whole_binary_case": "zero-C hard spectrum thermal balance", "runs": st["lines"]}, cap=14)
+
+
 # ----------------------------------------------------------------------------- comparison
 
 def cmp(a, b, op):
@@ -397,10 +632,13 @@ def run(ctx):
         "temperature_range: balance function uninterpreted; needs minimum ionized temperature <= 30000 K; when the loop body never runs (epsilon >= 1 or maximum iterations 0) the initial guess (> 4000 K) is returned, so the lower bound is min(T_min_ionized, initial guess)",
         "metals_range assumes n_e > 0 and positive recombination rates (positive denominators); n_e = 0 is excluded by the guard `if (ne > 0.)` of calculate_ionization_state (exercised by the cell ops); compute_cooling_and_heating_balance still evaluates the metals with n_e = 0 internally (NaN inside, masked by the h0 == 1 reset) — only the final cell state is checked",
         "independence of the previous cell state: proved in the model only for calculate_temperature w.r.t. the stored coolant fractions (cell_output_independent_of_previous_state); for calculate_ionization_state the model has no previous-state argument (trivial), so that every C++ branch assigns every fraction rests on the re-used-cell vs fresh-sentinel-cell oracle of the correspondence run",
+        "whole-binary stream: 8^3 cells (16^3 in thorough), 2-3 iterations, 1e4 packets, 1-2 threads, monochromatic 20..100 eV source; oracle on the last Gadget snapshot only (all ionic fractions and the temperature switched on through DensityGridWriterFields); heating estimators are not in the snapshot; for the RHD run the temperature is only required to be finite (it follows the pressure after the hydro step)",
         "cmac_assert is compiled out (HAVE_ASSERTIONS undefined in the configured build) and not modelled",
         "line cooling, heating terms and the rate tables are inputs of the model (values produced by the real classes on every run), not modelled",
     ]
     ok = ctx.obligations("CMacVerif.Props.C06", ["drv_c06"])
+    glue_tie(ctx)
+    sim_stream(ctx)
     extra = harness_extra()
     h = vlib.build_harness("c06", extra=extra)
     rng = ctx.rng
@@ -494,11 +732,30 @@ def run(ctx):
 
 
 def replay(ctx, path):
+    import json
+    obj = json.load(open(path))
+    if obj.get("stream") == "whole-binary":
+        binary = vlib.full_binary()
+        tool = vlib.build_harness("c06_snap")
+        print("parameter file:\n" + obj["param"])
+        bad, data = run_case(binary, tool, obj["param"], args=obj.get("args", ["--task-based"]), threads=obj.get("threads", 1))
+        if "pair_param" in obj and not bad:
+            bad2, data2 = run_case(binary, tool, obj["pair_param"], args=obj.get("args", ["--task-based"]), threads=obj.get("threads", 1))
+            mean = lambda v: sum(v) / max(1, len(v))
+            for k in ("Temperature", "NeutralFractionH"):
+                a, b2 = mean(data[k]), mean(data2[k])
+                print("mean %s: abundance 0 -> %r, abundance 1e-9 -> %r" % (k, a, b2))
+                if abs(a - b2) > 1e-3 * max(abs(a), abs(b2)):
+                    bad.append(("sim:zero-abundance-discontinuity", k))
+        for key, desc in bad:
+            print("ORACLE %s %s" % (key, desc))
+        print("REPRODUCED" if bad else "not reproduced")
+        return 1 if bad else 0
     return vlib.generic_replay(ctx, path, "c06", "drv_c06", cmp=cmp, harness_kw={"extra": harness_extra()})
 
 
 MANIFEST = dict(
     category="proof",
-    text="Lean theorems over the reals about the generic-arithmetic model of IonizationStateCalculator / TemperatureCalculator: hydrogen closed form solves x^2-(2+C)x+1=0 (h0_solves_balance), lies in [1e-14,1] for every input (h0_range), is antitone in J and monotone in n*alpha (h0_antitone_J, h0_monotone_nalpha; exact within a branch, up to 5.1e-11 relative across the Taylor switch, where strict monotonicity is refuted by h0_switch_not_antitone); every metal fraction in [0,1] and stage sums <= 1 for non-negative rates and positive denominators (metals_range); one H/He loop body maps (0,1)x[0,1] into [0,1]^2 when ch >= 0 (hHe_iterate_range_partial); for EVERY balance function, tolerance and iteration count the returned temperature is 500 K or in [min(T_min, initial guess), 30000 K] (temperature_range); compute_cooling_and_heating_balance is modelled statement by statement (only LineCoolingData::get_cooling and the rate tables enter as values): heating and cooling >= 0 for every input (balance_nonneg), line-cooling abundances in [0, A_X] (abund_range), and for every balance function whose evaluations are physical the cell state after calculate_temperature has H/He fractions in [0,1] and coolants reset or physical through every special case, clamp and reset (temperature_state_physical; for the modelled balance: temperature_model_state_physical / _checked, balModel_ok); the whole H/He solve returns fractions in [0,1] whenever the premise flag offDom computed by the model run is false (hHe_solve_range_checked); the result of calculate_temperature does not depend on the coolant fractions stored in the cell before the call (cell_output_independent_of_previous_state). The same definitions instantiated at Float agree with the real static functions and calculate_temperature (shipped tables) to rel 1e-10; oracles on the implementation: finiteness, ranges, stage sums, T bounds, abort (forked child), H-only balance residual and monotonicity, and after every update of a 3-6 step history on ONE re-used cell: all 14 fractions and the temperature equal those of a fresh sentinel-filled (0.123) cell given the same inputs (outputs not reassigned on some branch).",
+    text="Lean theorems over the reals about the generic-arithmetic model of IonizationStateCalculator / TemperatureCalculator: hydrogen closed form solves x^2-(2+C)x+1=0 (h0_solves_balance), lies in [1e-14,1] for every input (h0_range), is antitone in J and monotone in n*alpha (h0_antitone_J, h0_monotone_nalpha; exact within a branch, up to 5.1e-11 relative across the Taylor switch, where strict monotonicity is refuted by h0_switch_not_antitone); every metal fraction in [0,1] and stage sums <= 1 for non-negative rates and positive denominators (metals_range); one H/He loop body maps (0,1)x[0,1] into [0,1]^2 when ch >= 0 (hHe_iterate_range_partial); for EVERY balance function, tolerance and iteration count the returned temperature is 500 K or in [min(T_min, initial guess), 30000 K] (temperature_range); compute_cooling_and_heating_balance is modelled statement by statement (only LineCoolingData::get_cooling and the rate tables enter as values): heating and cooling >= 0 for every input (balance_nonneg), line-cooling abundances in [0, A_X] (abund_range), and for every balance function whose evaluations are physical the cell state after calculate_temperature has H/He fractions in [0,1] and coolants reset or physical through every special case, clamp and reset (temperature_state_physical; for the modelled balance: temperature_model_state_physical / _checked, balModel_ok); the whole H/He solve returns fractions in [0,1] whenever the premise flag offDom computed by the model run is false (hHe_solve_range_checked); the result of calculate_temperature does not depend on the coolant fractions stored in the cell before the call (cell_output_independent_of_previous_state). The same definitions instantiated at Float agree with the real static functions and calculate_temperature (shipped tables) to rel 1e-10; oracles on the implementation: finiteness, ranges, stage sums, T bounds, abort (forked child), H-only balance residual and monotonicity; the glue around the kernels (normalisation of the counters by the abundances, theorem normalise_zero_counter, statement text tied in both task-based drivers) through short whole-binary runs (--task-based with thermal balance on/off, abundance exactly 0 for each element, hard spectra; one --task-based-rhd radiation run) with the same oracles on the Gadget snapshot plus continuity at abundance 0 (0 vs 1e-9, same seed); and after every update of a 3-6 step history on ONE re-used cell: all 14 fractions and the temperature equal those of a fresh sentinel-filled (0.123) cell given the same inputs (outputs not reassigned on some branch).",
     note="PARTIAL: that the H/He premise flag (0 < h0old < 1 and ch >= 0 in every executed body) stays false on the whole domain is checked on every generated case (count reported, 0 in domain), not proved; convergence of the H/He fixed point within 20 iterations (no cmac_error), ch >= 0 for the shipped tables and absence of aborts in calculate_temperature are searched, not proved. Trusted: Lean kernel + 3 axioms; hand model (tied by the Float correspondence); exact-arithmetic theorems (rounding only bounded empirically); line cooling / heating / rate tables enter as values computed by the real classes; cmac_assert compiled out.",
     technique="Lean 4 proofs (field_simp / nlinarith / sqrt lemmas, induction over the iteration count with an uninterpreted balance function) + Float differential correspondence against the real C++ with forked-child abort capture")
